@@ -62,7 +62,7 @@ def parseOp (ws : List String) : String :=
   match (arg? ws "fmt").bind fmtSelOf, abcSelOf ((arg? ws "abc").getD "text"), argHex? ws "hex" with
   | some fs, some as, some bytes =>
     let lines := splitLines bytes
-    match openModel fs as (fileNameOf ws) lines with
+    match openModelW ((argNat? ws "nw").getD 0) fs as (fileNameOf ws) lines with      -- `nw=`: ESL_MSAFILE_FMTDATA.namewidth given to esl_msafile_Open*
     | .enoformat => "open=enoformat"
     | .enoalphabet => "open=enoalphabet"
     | .fault => "fault"
